@@ -680,6 +680,10 @@ class TaskScenario(ScenarioData):
                 self.isRunAway = True
                 return False
 
+        if not forward and first_booked_slot is None and self.doneEffort > previous_effort:
+            # The task finished in the very first slot it managed to book
+            first_booked_slot = self.currentSlotIdx
+
         # Set start/end dates based on scheduling direction
         if forward:
             # For forward scheduling: start is at the beginning, end is at current position
